@@ -847,7 +847,24 @@ def rule_r1(ctx):
         f = ctx.p.get_function(HYP, q)
         r.analysed(f)
         defs = single_defs(f.node)
-        # evals is bound by tuple assignment from np.linalg.eig
+        # the checked quantity is found by where it comes from, not by the
+        # name it is bound to: eigenvalues = first target of a tuple
+        # assignment from an eigensolver; adapted basis = result of
+        # self._data_with_dual()
+        names = set(names)
+        for x in ast.walk(f.node):
+            if isinstance(x, ast.Assign) and isinstance(x.value, ast.Call):
+                fn_ = dotted(x.value.func)
+                if "evals" in names and fn_.split(".")[-1] in (
+                        "eig", "eigh", "eigvals") and isinstance(
+                            x.targets[0], ast.Tuple) and x.targets[0].elts:
+                    names.add(dotted(x.targets[0].elts[0]))
+                if "evals" in names and fn_.split(".")[-1] == "eigvals" \
+                        and isinstance(x.targets[0], ast.Name):
+                    names.add(x.targets[0].id)
+                if "dual_data" in names and fn_.endswith("_data_with_dual") \
+                        and isinstance(x.targets[0], ast.Name):
+                    names.add(x.targets[0].id)
         allpaths = list(_paths_to_return(f.node.body))
         ifs = {id(c): c for conds, _ in allpaths for c, _t in conds
                if isinstance(c, ast.If)
